@@ -475,6 +475,49 @@ pub fn worker(ctx: &mut Ctx) {
             }
             ctx.report = rep;
         }
+        // one word added twice, in two apostrophe styles or two capitalisations, in either order: the dictionary
+        // keeps one spelling per word; what it lists, what it counts and what it finds must be that one spelling,
+        // and the fast back-end built from it must answer like it
+        if ctx.shard == 2 % ctx.nshards {
+            let pairs = [("it\u{2019}s", "it's"), ("O\u{2019}Brien", "O'Brien"), ("rock\u{2019}n\u{2019}roll", "rock'n'roll"), ("d\u{FF07}Arc", "d'Arc"), ("zorblax", "Zorblax"), ("l\u{2018}ami", "l'ami")];
+            for (a, b) in pairs {
+                for (first, second) in [(a, b), (b, a)] {
+                    ctx.report.evaluations += 1;
+                    let mut m = MutableDictionary::new();
+                    m.append_word_str("filler", WordMetadata::default());
+                    m.append_word_str(first, WordMetadata::default());
+                    let mut meta2 = WordMetadata::default();
+                    meta2.common = true;
+                    m.append_word_str(second, meta2);
+                    let f: FstDictionary = m.clone().into();
+                    let listed: Vec<Vec<char>> = m.words_iter().map(|w| w.to_vec()).collect();
+                    let wit = || json!({"added_in_order": ["filler", first, second], "listed": listed.iter().map(|w| st(w)).collect::<Vec<_>>()});
+                    let mut ids: Vec<WordId> = Vec::new();
+                    for w in &listed {
+                        let id = WordId::from_word_chars(w);
+                        if !ids.contains(&id) {
+                            ids.push(id);
+                        }
+                    }
+                    let n_listed = listed.len();
+                    if ids.len() != n_listed || m.word_count() != n_listed {
+                        ctx.report.finding("C15", "mutable.lists-a-word-twice", 8, wit, || format!("words_iter lists {} spellings for {} words; word_count says {}", n_listed, ids.len(), m.word_count()));
+                    }
+                    for q in [first, second] {
+                        let qc: Vec<char> = q.chars().collect();
+                        let (a1, a2) = (m.get_correct_capitalization_of(&qc).map(|w| w.to_vec()), f.get_correct_capitalization_of(&qc).map(|w| w.to_vec()));
+                        if a1 != a2 || m.get_word_metadata(&qc) != f.get_word_metadata(&qc) || m.contains_exact_word(&qc) != f.contains_exact_word(&qc) {
+                            ctx.report.finding("C15", "disagree@re-added-word", 8, wit, || format!("for {q:?} the mutable back-end says {:?} / exact {}, the fst built from it says {:?} / exact {}", a1.as_ref().map(|w| st(w)), m.contains_exact_word(&qc), a2.as_ref().map(|w| st(w)), f.contains_exact_word(&qc)));
+                        }
+                        for r in m.fuzzy_match(&qc, 1, 10) {
+                            if !m.contains_exact_word(r.word) {
+                                ctx.report.finding("C15", "fuzzy.not-a-word@mutable/re-added-word", 8, wit, || format!("fuzzy search for {q:?} returns {:?}, which the dictionary does not contain in that spelling", st(r.word)));
+                            }
+                        }
+                    }
+                }
+            }
+        }
         // apostrophe and case variants: four back-ends built from the same words must agree on every query API
         if ctx.shard == 0 {
             let base = ["O\u{2019}Brien", "o'clock", "rock\u{2019}n\u{2019}roll", "don't", "Qu\u{2018}est", "L'Oreal", "d\u{FF07}Arc", "caf\u{00E9}", "Na\u{00EF}ve", "it\u{2019}s"];
